@@ -3289,6 +3289,11 @@ class quantized_hswish(quantized_bits):  # pylint: disable=invalid-name
     """Add relu_shift and relu_upper_bound to the config file."""
 
     base_config = super(quantized_hswish, self).get_config()
+    # Drop the quantized_bits options that quantized_hswish.__init__ does not
+    # accept, so that from_config(get_config()) works.
+    for key in ("keep_negative", "post_training_scale", "elements_per_scale",
+                "min_po2_exponent", "max_po2_exponent"):
+      base_config.pop(key, None)
 
     config = {
         "relu_shift": self.relu_shift,
